@@ -20,9 +20,14 @@
 //                         (or the function has no results)
 //   Deferred callee       a deferred call, emitted after Ret in LIFO order
 //   GoStart               a `go` statement (its literal can be extracted separately)
-//   Cont / Brk            continue / break (path ends; loops are unrolled once)
+//   Cont / Brk            continue / break (the path ends there)
 //   LoopEnd               fell off the end of the body of an unbounded `for { }` loop (one iteration is a
-//                         path); in `for cond {}` and `for range` loops such a path goes on after the loop
+//                         path).  Bounded loops (`for cond {}`, `for range`) are unrolled: the body is
+//                         executed 0, 1 and 2 (maxIter) times; a body path that falls off its end either
+//                         leaves the loop (the condition is tested again and is false: the same Cond / Call
+//                         events as for a loop that is not entered; `Cond "range X has next" false` for a
+//                         range loop) and goes on after it, or re-enters (condition true) and runs the body
+//                         again; after maxIter iterations it can only leave.
 //   Unknown pos           unsupported statement form
 package main
 
@@ -118,6 +123,9 @@ type gen struct {
 	goLits     []*ast.FuncLit
 }
 
+// bounded loops are unrolled up to maxIter executions of the body
+const maxIter = 2
+
 func (g *gen) addCalls(p *path, n ast.Node, assigned []string) {
 	cs := callsIn(n)
 	for _, c := range cs {
@@ -177,6 +185,18 @@ func (g *gen) branch(p path, cond ast.Expr, taken bool) path {
 			}
 			// a fresh copy of the event so sibling paths are not affected
 			e := q.evs[idx]
+			if want := map[bool]string{true: "FAIL", false: "OK"}[fail]; e.flag != "NA" && e.flag != want {
+				// the outcome of this call was already decided the other way on this path and the
+				// variable was not assigned since (a loop condition tested again after an iteration
+				// that does not assign it): keep the path (conservative) with a free condition
+				// instead of rewriting the outcome of the earlier call
+				fl := "false"
+				if taken {
+					fl = "true"
+				}
+				q.evs = append(q.evs, ev{"Cond", "again: " + txt(cond), fl})
+				return q
+			}
 			if fail {
 				e.flag = "FAIL"
 			} else {
@@ -368,50 +388,48 @@ func (g *gen) stmt(p path, s ast.Stmt) []path {
 		}
 		return []path{q}
 	case *ast.ForStmt:
-		// loops are unrolled once: the body is a path segment ending in
-		// return / continue / break / LoopEnd
 		ps := []path{p}
 		if x.Init != nil {
 			ps = g.stmts(ps, []ast.Stmt{x.Init})
 		}
-		var out []path
-		for _, q := range ps {
-			start := []path{q}
-			if x.Cond != nil {
-				tr, fa := g.branches(q, x.Cond)
-				start = tr
-				out = append(out, fa...) // loop not entered: continue after it
-			}
-			body := g.stmts(start, x.Body.List)
-			for _, b := range body {
-				if !b.done && x.Cond == nil {
-					// `for { ... }`: one iteration is a path of its own
+		if x.Cond == nil {
+			// `for { ... }`: one iteration is a path of its own, ending in
+			// return / continue / break / LoopEnd
+			var out []path
+			for _, b := range g.stmts(ps, x.Body.List) {
+				if !b.done {
 					b = b.clone()
 					b.evs = append(b.evs, ev{"LoopEnd", "", ""})
 					b.done = true
 				}
-				// a bounded loop (`for cond {}`) whose body falls off its end: the
-				// path goes on after the loop (body executed once, then exit)
 				out = append(out, b)
 			}
+			return out
 		}
-		return out
+		return g.unroll(ps, func(q path) (tr, fa []path) { return g.branches(q, x.Cond) }, x.Body, x.Post)
 	case *ast.RangeStmt:
-		// `for x := range ch/slice`: either nothing (more) to iterate over — continue
-		// after the loop — or one iteration of the body, unrolled once
+		// `for x := range ch/slice`: the range expression is evaluated once; before every
+		// iteration there is either nothing (more) to iterate over or a next element
 		q0 := p.clone()
 		g.addCalls(&q0, x.X, nil)
-		out := []path{}
-		skip := q0.clone()
-		skip.evs = append(skip.evs, ev{"Cond", "range " + txt(x.X) + " has next", "false"})
-		out = append(out, skip)
-		enter := q0.clone()
-		enter.evs = append(enter.evs, ev{"Cond", "range " + txt(x.X) + " has next", "true"})
-		body := g.stmts([]path{enter}, x.Body.List)
-		// a body path that falls off its end goes on after the loop (the body is
-		// executed once, then the loop is left); return / continue / break end the path
-		out = append(out, body...)
-		return out
+		has := "range " + txt(x.X) + " has next"
+		var vars []ast.Expr
+		if x.Key != nil {
+			vars = append(vars, x.Key)
+		}
+		if x.Value != nil {
+			vars = append(vars, x.Value)
+		}
+		return g.unroll([]path{q0}, func(q path) (tr, fa []path) {
+			no := q.clone()
+			no.evs = append(no.evs, ev{"Cond", has, "false"})
+			yes := q.clone()
+			yes.evs = append(yes.evs, ev{"Cond", has, "true"})
+			for _, n := range lhsNames(vars) {
+				delete(yes.lastCallFor, n)
+			}
+			return []path{yes}, []path{no}
+		}, x.Body, nil)
 	case *ast.SelectStmt:
 		var out []path
 		for _, c := range x.Body.List {
@@ -469,6 +487,41 @@ func (g *gen) stmt(p path, s ast.Stmt) []path {
 		q.evs = append(q.evs, ev{"Unknown", fmt.Sprintf("%T at %s", s, filepath.Base(fset.Position(s.Pos()).String())), ""})
 		return []path{q}
 	}
+}
+
+// unroll a bounded loop: `test` gives the paths on which the loop condition holds (the body is
+// entered) and those on which it does not (the loop is left and the path goes on after it).
+// The body is executed 0, 1, ..., maxIter times; paths that would need more iterations are
+// not enumerated.  return / continue / break end a path
+// where they stand (as in unbounded loops); a body path that falls off its end runs the post
+// statement and tests the condition again.  Paths are cloned by every statement, so the
+// lastCallFor map and the defers of an iteration never leak into a sibling path; a variable
+// assigned again in the next iteration is rebound by the assignment itself.
+func (g *gen) unroll(ps []path, test func(q path) (tr, fa []path), body *ast.BlockStmt, post ast.Stmt) []path {
+	var out []path
+	cur := ps
+	for i := 0; ; i++ {
+		var enter []path
+		for _, q := range cur {
+			tr, fa := test(q)
+			out = append(out, fa...) // the loop is left after i iterations
+			enter = append(enter, tr...)
+		}
+		if i == maxIter || len(enter) == 0 {
+			break
+		}
+		cur = nil
+		for _, b := range g.stmts(enter, body.List) {
+			if b.done {
+				out = append(out, b)
+			} else if post != nil {
+				cur = append(cur, g.stmt(b, post)...)
+			} else {
+				cur = append(cur, b)
+			}
+		}
+	}
+	return out
 }
 
 // finish: falling off the end is a return; then append the deferred
